@@ -251,6 +251,7 @@ func runCheck(spec *PropSpec, tier string, seed int, accept, verbose bool, overl
 	os.MkdirAll(workDir, 0o755)
 	var results []*funcResult
 	broken := []string{}
+	var brokenFuncs []string // functions whose contract no longer binds (tool limit)
 	// functions recorded in the ledger must still bind
 	have := map[string]bool{}
 	for _, k := range keys {
@@ -281,6 +282,7 @@ func runCheck(spec *PropSpec, tier string, seed int, accept, verbose bool, overl
 		if err := g.VerifyFunction(fn); err != nil {
 			fr.ToolErr = err.Error()
 			broken = append(broken, fmt.Sprintf("%s: %v", k, err))
+			brokenFuncs = append(brokenFuncs, k)
 			continue
 		}
 		fr.GenMs = time.Since(tg).Milliseconds()
@@ -535,6 +537,43 @@ func runCheck(spec *PropSpec, tier string, seed int, accept, verbose bool, overl
 					rr["verdict"] = "listed finding not reproduced by its harness"
 				}
 				replayRuns = append(replayRuns, rr)
+			}
+		}
+	}
+
+	// ---- a function whose contract no longer binds cannot be decided by proof; if a replay harness belongs to one of
+	// its recorded obligations, the real code is asked directly: a harness that fails is a violation with a failing
+	// input, not merely a broken check
+	if !accept && len(brokenFuncs) > 0 {
+		var hs []HarnessSpec
+		if err := loadJSON(filepath.Join(verifRoot, "replay", "harness.json"), &hs); err == nil {
+			ran := map[string]bool{}
+			for _, k := range brokenFuncs {
+				for n, e := range ledger.Obligations {
+					if e.Status != "discharged" || !strings.HasPrefix(n, k+"/") {
+						continue
+					}
+					for _, h := range hs {
+						re, err := regexp.Compile(h.Match)
+						if err != nil || !re.MatchString(n) || ran[h.Test+h.Run] {
+							continue
+						}
+						ran[h.Test+h.Run] = true
+						expectFail := false
+						for _, kf := range known {
+							if kf.Kind == "finding" && re.MatchString(kf.Obligation) {
+								expectFail = true
+							}
+						}
+						out, passed, err := goTestOverlay(h.Dir, h.Pkg, filepath.Join(verifRoot, "replay", h.Test), h.Run, filepath.Join(verifRoot, "work", id), nil, 300)
+						if err == nil && !passed && !expectFail && !strings.Contains(out, "[build failed]") && !strings.Contains(out, "[setup failed]") {
+							boundedViol++
+							rp := writeReplay(id, "replay/"+h.Test, map[string]any{"obligation": n, "kind": "replay", "harness": h.Test, "run": h.Run, "output": out, "note": "the contract of " + k + " no longer binds; the replay harness of this obligation fails on the current tree"})
+							fmt.Printf("VIOLATION property=%s replay=%s\n", id, rp)
+							fmt.Printf("  failed obligation: %s (contract no longer binds; replay harness %s fails on the real code)\n", n, h.Run)
+						}
+					}
+				}
 			}
 		}
 	}
